@@ -132,6 +132,20 @@ theorem C05_frozen_machine {α : Type} (N : NumSys α) (sites : List AngleSite) 
     (run N sites st ops)[j]? = some o :=
   run_frozen N sites ops st j o hj hf
 
+/-- the sites through which copies are made keep an in-range value (`norm2` or `copyField`) -/
+theorem C05_gen_copy_sites_ok : copySitesOK Gen.Angles.sites = true := by decide +kernel
+
+/-- Copies are equal and independent: `freeze()`, `thaw()`, `Angle(angle)`, `FrozenAngle(angle)` and `Angle.copy()`
+create a *new* object carrying exactly the source's three fields (binary64 model, current source sites); by
+`C05_frame_machine` no later call on one of the two changes the other. -/
+theorem C05_copy_equal_b64 {st : State Val} (h : Inv b64Laws st) {i : Nat} {o : Obj Val} (hi : st[i]? = some o)
+    (hk : o.kind.isAngle = true) :
+    (o.kind = .ang → (step b64 Gen.Angles.sites st (.freeze i)).1 = st ++ [⟨.fang, o.a, o.b, o.c⟩]) ∧
+    (o.kind = .fang → (step b64 Gen.Angles.sites st (.thaw i)).1 = st ++ [⟨.ang, o.a, o.b, o.c⟩]) ∧
+    (∀ fr, (step b64 Gen.Angles.sites st (.ctorCopy fr i)).1 = st ++ [⟨Kind.angle fr, o.a, o.b, o.c⟩]) ∧
+    (∀ fr, (step b64 Gen.Angles.sites st (.ctor fr false o.a o.b o.c)).1 = st ++ [⟨Kind.angle fr, o.a, o.b, o.c⟩]) :=
+  copy_eq b64Laws C05_gen_copy_sites_ok b64_idem h hi hk
+
 /-- Heap level, all nine classes (matrices included): along any history of API calls whose slot stores execute
 sites of `Gen.Frozen.stores` (read as the translator reads them: an accepted origin denotes an object allocated by the
 running call or an instance of a mutable class), every frozen object keeps the values it had when the call that
